@@ -5,6 +5,12 @@ from .. import await_gen as G
 from .. import await_h as H
 from ..runner import Suite
 
+MANIFEST = dict(
+    text='Lean 4 theorems about a timed model of send_message/_await_response (Await.run: well-founded recursion, arbitrary poll period, both tie orders, histories of any length): a return is the payload of the first response bearing the sent id, foreign/same-id-request/batch messages never complete the call, timeout iff no matching response, one request written. The hand-written model is tied to the code by a correspondence run of the real send_message under a virtual-time event loop.',
+    note='Trusted: Lean kernel (axioms propext, Classical.choice, Quot.sound only), the correspondence harness and virtual-time loop; anyio/asyncio semantics are sampled, not proved. result:null responses are outside the quantifier.',
+    technique='Lean 4 proof (fun_induction over a timed state-machine model) + differential correspondence run under virtual time',
+    design='5/C01',
+)
 GEN = ["Timing", "Errors"]
 THEOREMS = [
     "c01_result_sound", "c01_never_foreign", "c01_foreign_kinds", "c01_timeout_complete",
